@@ -211,6 +211,11 @@ Theorem comparison_contract_sound : forall c, cmp_ok c = true -> forall x y,
 Proof. exact cmp_sound. Qed.
 Print Assumptions comparison_contract_sound.
 
+(* dispatching operations through any selection table that agrees with the model's is the same machine *)
+Theorem selection_table_dispatch : forall sel tbl n l, sel_ok sel = true -> run_s sel tbl n l = run_t tbl n l.
+Proof. exact run_s_eq. Qed.
+Print Assumptions selection_table_dispatch.
+
 (* ---- non-vacuity ---- *)
 Definition h1 := [Create; RawCtor 0 (Some 0%nat); RefDec 0%nat].   (* object 0 held by handle 0 only, count 1 *)
 
@@ -263,4 +268,18 @@ Example ex_cmp_contract_rejects_wrong_ne :
   cmp_ok model_cmp = true /\
   cmp_ok (mkCmp (CCmp KEq CA CB) (CCmp KLt CA CB) (CCmp KLt CA CB) true true true) = false /\
   cmp_ok (mkCmp (CNot (CCmp KNe CB CA)) (CNot (CCmp KEq CA CB)) (CCmp KGt CB CA) true true true) = true.
+Proof. vm_compute. repeat split; reflexivity. Qed.
+
+(* a converting constructor from an rvalue that neither increments nor nulls its source (the selection
+   table then names a member the model does not know): rejected by sel_ok; executing such a member
+   makes the count one short, and the later release hits a dead object *)
+Definition stealing_table (m : meth) : list mop :=
+  match m with MConvCtor => [MStore DThis PArg] | _ => model_table m end.
+Example ex_conv_move_keeps_source_reference :
+  let s := run 3 [Create; RawCtor 2 (Some 0%nat); RefDec 0%nat; ConvMoveCtor 0 2] in
+  (use_count s 0%nat, handle_ptr s 0, handle_ptr s 2) = (2, Some 0%nat, Some 0%nat) /\
+  contracts_ok stealing_table = false /\
+  err (s_heap (exec_op model_table (exec_op model_table (exec_op stealing_table
+        (run 3 [Create; RawCtor 2 (Some 0%nat); RefDec 0%nat]) (ConvMoveCtor 0 2)) (Dtor 2)) (Dtor 0))) = true /\
+  sel_ok (fun f => match f with FConvR => (None, VUnknown) | _ => model_sel f end) = false.
 Proof. vm_compute. repeat split; reflexivity. Qed.
